@@ -44,7 +44,8 @@ type c04Input struct {
 }
 
 type c04Obs struct {
-	Res      int // 0 done, 1 nothing to snapshot (ErrNoWALToSnapshot), 2 other error
+	Res      int // 0 done, 1 nothing to snapshot (ErrNoWALToSnapshot), 2 other error, 7 blocked, 8 not possible now, 10 incremental persist refused
+	Pend     int // snapshot in flight: 0 none, 1 full, 2 incremental
 	Staged   int
 	Cat      []vsSnap
 	CatIdx   []int    // projected index of each catalog entry (number of driver-issued log entries covered)
@@ -78,12 +79,15 @@ func (m *c04failSink) ID() string    { return "c04-fail" }
 func (m *c04failSink) Cancel() error { return nil }
 
 type c04Run struct {
-	n       *vsNode
-	scratch string
-	entries []c04Entry
-	ndonor  int
-	release func() // ends the stalled read started by a "stallwrite" step
-	spec    []int  // reference: the applied state by the property text (write = upsert, load/boot/install = replace)
+	n        *vsNode
+	scratch  string
+	entries  []c04Entry
+	ndonor   int
+	release  func()           // ends the stalled read started by a "stallwrite" step
+	pend     raft.FSMSnapshot // snapshot created by a "begin" step and not yet persisted / released
+	pendIdx  uint64
+	pendTerm uint64
+	spec     []int // reference: the applied state by the property text (write = upsert, load/boot/install = replace)
 }
 
 func (r *c04Run) project(idx uint64) int {
@@ -119,6 +123,13 @@ func (r *c04Run) step(op c04Op) (res int, err error) {
 	case "snap":
 		switch op.Out {
 		case "blocked":
+			if r.pend != nil {
+				if r.release != nil {
+					r.release()
+					r.release = nil
+				}
+				return 8, nil
+			}
 			// the read was started before the preceding write ("stallwrite"), so it is not at the end of the WAL:
 			// neither the TRUNCATE checkpoint of a full snapshot nor the one of an incremental snapshot can finish
 			if r.release == nil {
@@ -138,36 +149,64 @@ func (r *c04Run) step(op c04Op) (res int, err error) {
 				return 1, nil
 			}
 			return 7, nil
-		case "ok":
-			if err := s.Snapshot(0); err != nil {
-				if err == ErrNoWALToSnapshot || strings.Contains(err.Error(), ErrNoWALToSnapshot.Error()) {
-					return 1, nil
-				}
-				if err == ErrNothingNewToSnapshot {
-					return 1, nil // raft's FSM saw no entry since the node started (fast-path restart): nothing to snapshot either
-				}
-				return 2, err
-			}
 		default:
-			f, err := NewFSM(s).Snapshot()
+			return 2, fmt.Errorf("snap with outcome %q must be expanded", op.Out)
+		}
+	case "begin":
+		// fsmSnapshot, as raft's FSM goroutine calls it; the snapshot is then in flight
+		if r.pend != nil {
+			return 8, nil
+		}
+		f, err := NewFSM(s).Snapshot()
+		if err != nil {
+			if err == ErrNoWALToSnapshot {
+				return 1, nil
+			}
+			return 2, err
+		}
+		r.pend, r.pendIdx, r.pendTerm = f, s.raft.AppliedIndex(), s.raft.CurrentTerm()
+	case "persist":
+		// what raft's snapshot goroutine does with it: Create, Persist, sink.Close, Release
+		if r.pend == nil {
+			return 8, nil
+		}
+		f := r.pend
+		r.pend = nil
+		switch op.Out {
+		case "ok":
+			cf := s.raft.GetConfiguration()
+			if err := cf.Error(); err != nil {
+				f.Release()
+				return 2, err
+			}
+			time.Sleep(3 * time.Millisecond) // snapshot ids carry a millisecond timestamp
+			sink, err := s.snapshotStore.Create(raft.SnapshotVersionMax, r.pendIdx, r.pendTerm, cf.Configuration(), 1, nil)
 			if err != nil {
-				if err == ErrNoWALToSnapshot {
-					return 1, nil
+				f.Release()
+				return 2, err
+			}
+			if err := f.Persist(sink); err != nil {
+				sink.Cancel()
+				f.Release()
+				if strings.Contains(err.Error(), "full snapshot needed") {
+					return 10, nil
 				}
 				return 2, err
 			}
-			switch op.Out {
-			case "failbefore":
-				if f.Persist(&c04failSink{}) == nil {
-					return 2, fmt.Errorf("persist to a failing sink succeeded")
-				}
-			case "failafter":
-				if f.Persist(&c04failSink{removeDir: s.walStagingDir}) == nil {
-					return 2, fmt.Errorf("persist to a failing sink succeeded")
-				}
+			if err := sink.Close(); err != nil {
+				f.Release()
+				return 2, err
 			}
-			f.Release()
+		case "failbefore":
+			if f.Persist(&c04failSink{}) == nil {
+				return 2, fmt.Errorf("persist to a failing sink succeeded")
+			}
+		case "failafter":
+			if f.Persist(&c04failSink{removeDir: s.walStagingDir}) == nil {
+				return 2, fmt.Errorf("persist to a failing sink succeeded")
+			}
 		}
+		f.Release()
 	case "load":
 		p := filepath.Join(r.scratch, "load.db")
 		if err := vsMakeDB(p, op.Data, op.Wal); err != nil {
@@ -180,6 +219,9 @@ func (r *c04Run) step(op c04Op) (res int, err error) {
 		r.entries = append(r.entries, c04Entry{Idx: s.raft.AppliedIndex(), Load: append([]int{}, op.Data...)})
 		copy(r.spec, op.Data)
 	case "boot":
+		if r.pend != nil {
+			return 8, nil // ReadFrom's own snapshot would wait for the one in flight: not a case of the model
+		}
 		p := filepath.Join(r.scratch, "boot.db")
 		if err := vsMakeDB(p, op.Data, op.Wal); err != nil {
 			return 2, err
@@ -195,6 +237,9 @@ func (r *c04Run) step(op c04Op) (res int, err error) {
 		r.entries = append(r.entries, c04Entry{Idx: s.raft.AppliedIndex(), Noop: true})
 		copy(r.spec, op.Data)
 	case "install":
+		if r.pend != nil {
+			return 8, nil
+		}
 		// A sender (a real store of its own) takes a full snapshot of Data and one incremental snapshot per
 		// segment, none reaped; its newest snapshot is streamed the way raft sends it (database + WAL files).
 		// The receiver does what raft's installSnapshot does: Create, stream, Close, then FSM.Restore of it.
@@ -276,6 +321,7 @@ func (r *c04Run) step(op c04Op) (res int, err error) {
 			return 2, err
 		}
 	case "restart":
+		r.pend = nil // the snapshot in flight dies with the process
 		if err := r.n.restart(); err != nil {
 			return 2, err
 		}
@@ -288,6 +334,12 @@ func (r *c04Run) step(op c04Op) (res int, err error) {
 func (r *c04Run) observe(res int) (c04Obs, string) {
 	s := r.n.s
 	o := c04Obs{Res: res}
+	if r.pend != nil {
+		o.Pend = 2
+		if r.pend.(*FSMSnapshot).Type.IsFull() {
+			o.Pend = 1
+		}
+	}
 	st, _ := s.StagedWALs()
 	o.Staged = len(st)
 	o.Cat = vsCatalog(s.snapshotDir)
@@ -362,7 +414,11 @@ func c04CoqOp(op c04Op) string {
 	case "write", "stallwrite":
 		return fmt.Sprintf("(OWrite %s %s)", vsCoqNList(op.Keys), coqN(uint64(op.Val)))
 	case "snap":
-		return "(OSnap " + map[string]string{"ok": "POk", "notinvoked": "PNotInvoked", "failbefore": "PFailBefore", "failafter": "PFailAfter", "blocked": "PBlocked"}[op.Out] + ")"
+		return "OSnapBlocked"
+	case "begin":
+		return "OSnapBegin"
+	case "persist":
+		return "(OSnapPersist " + map[string]string{"ok": "POk", "notinvoked": "PNotInvoked", "failbefore": "PFailBefore", "failafter": "PFailAfter"}[op.Out] + ")"
 	case "load":
 		return "(OLoad " + vsCoqNList(op.Data) + ")"
 	case "boot":
@@ -390,32 +446,52 @@ func c04CoqObs(o c04Obs) string {
 	for i, c := range o.Chain {
 		chain[i] = coqPair(coqN(uint64(c[0])), coqN(uint64(c[1])))
 	}
-	return fmt.Sprintf("{| o_res := %s; o_staged := %s; o_cat := %s; o_chain := %s; o_full := %s; o_restored := %s; o_rebuilt := %s; o_live := %s |}",
-		coqN(uint64(o.Res)), coqN(uint64(o.Staged)), coqList(cat), coqList(chain), coqBool(o.FullNeed), vsCoqNList(o.Restored), vsCoqNList(o.Rebuilt), vsCoqNList(o.Live))
+	return fmt.Sprintf("{| o_res := %s; o_pend := %s; o_staged := %s; o_cat := %s; o_chain := %s; o_full := %s; o_restored := %s; o_rebuilt := %s; o_live := %s |}",
+		coqN(uint64(o.Res)), coqN(uint64(o.Pend)), coqN(uint64(o.Staged)), coqList(cat), coqList(chain), coqBool(o.FullNeed), vsCoqNList(o.Restored), vsCoqNList(o.Rebuilt), vsCoqNList(o.Live))
 }
 
-// c04Nontrivial: >= 1 non-ok persist outcome of an incremental snapshot that leaves a staged WAL, later a
-// change of base (full snapshot, load, boot, install), and an incremental snapshot after that.
+// c04Nontrivial: (a) >= 1 non-ok persist outcome of an incremental snapshot that leaves a staged WAL, later a
+// change of base (full snapshot, load, boot, install), and an incremental snapshot after that; or (b) a load applied
+// while a snapshot is in flight (between fsmSnapshot and its persist), that snapshot persisted, and a later snapshot.
 func c04Nontrivial(obs []c04Obs, ops []c04Op) bool {
 	stage := 0
+	inflight, loadedInflight, persistedAfterLoad := false, false, false
 	for i, op := range ops {
 		if i >= len(obs) {
 			break
 		}
+		switch op.Kind {
+		case "begin":
+			inflight = obs[i].Res == 0
+		case "load":
+			if inflight {
+				loadedInflight = true
+			}
+		case "persist":
+			if persistedAfterLoad && op.Out == "ok" && obs[i].Res == 0 {
+				return true
+			}
+			if inflight && loadedInflight && op.Out == "ok" && obs[i].Res == 0 {
+				persistedAfterLoad = true
+			}
+			inflight, loadedInflight = false, false
+		case "restart":
+			inflight, loadedInflight = false, false
+		}
 		switch stage {
 		case 0:
-			if op.Kind == "snap" && op.Out != "ok" && obs[i].Res == 0 && obs[i].Staged > 0 {
+			if op.Kind == "persist" && op.Out != "ok" && obs[i].Res == 0 && obs[i].Staged > 0 {
 				stage = 1
 			}
 		case 1:
 			if op.Kind == "load" || op.Kind == "boot" || op.Kind == "install" {
 				stage = 2
 			}
-			if op.Kind == "snap" && obs[i].Res == 0 && len(obs[i].Cat) > 0 && obs[i].Cat[0].Full && (i == 0 || len(obs[i].Cat) > len(obs[i-1].Cat)) {
+			if op.Kind == "persist" && obs[i].Res == 0 && len(obs[i].Cat) > 0 && obs[i].Cat[0].Full && (i == 0 || len(obs[i].Cat) > len(obs[i-1].Cat)) {
 				stage = 2
 			}
 		case 2:
-			if op.Kind == "snap" && op.Out == "ok" && obs[i].Res == 0 && len(obs[i].Cat) > 0 && !obs[i].Cat[0].Full {
+			if op.Kind == "persist" && op.Out == "ok" && obs[i].Res == 0 && len(obs[i].Cat) > 0 && !obs[i].Cat[0].Full {
 				return true
 			}
 		}
@@ -423,13 +499,17 @@ func c04Nontrivial(obs []c04Obs, ops []c04Op) bool {
 	return false
 }
 
-// a blocked snapshot attempt that carries a write is two steps of the model: the write (made while a reader is
-// already stalled) and the attempt
+// a snapshot is two steps of the model (fsmSnapshot, then the persist with its outcome); a blocked attempt that
+// carries a write is the write (made while a reader is already stalled) and the attempt
 func c04Expand(ops []c04Op) []c04Op {
 	var out []c04Op
 	for _, op := range ops {
 		if op.Kind == "snap" && op.Out == "blocked" && len(op.Keys) > 0 {
 			out = append(out, c04Op{Kind: "stallwrite", Keys: op.Keys, Val: op.Val}, c04Op{Kind: "snap", Out: "blocked"})
+			continue
+		}
+		if op.Kind == "snap" && op.Out != "blocked" {
+			out = append(out, c04Op{Kind: "begin"}, c04Op{Kind: "persist", Out: op.Out})
 			continue
 		}
 		out = append(out, op)
@@ -600,6 +680,22 @@ func c04Gen(rng *rand.Rand, maxOps int) c04Input {
 	n := 4 + rng.Intn(maxOps-5)
 	for len(ops) < n {
 		switch x := rng.Intn(20); {
+		case x < 2:
+			// a snapshot in flight while entries are applied: fsmSnapshot, then writes / a load / a reap, then the persist
+			ops = append(ops, c04Op{Kind: "begin"})
+			for k := rng.Intn(3); k >= 0; k-- {
+				switch rng.Intn(5) {
+				case 0, 1:
+					val += 10
+					copy(cur, c04RandCells(rng, val))
+					ops = append(ops, c04Op{Kind: "load", Data: append([]int{}, cur...), Wal: rng.Intn(2) == 0})
+				case 2:
+					ops = append(ops, c04Op{Kind: "reap"})
+				default:
+					ops = append(ops, w())
+				}
+			}
+			ops = append(ops, c04Op{Kind: "persist", Out: outs[rng.Intn(len(outs))]})
 		case x < 7:
 			ops = append(ops, w())
 		case x < 13:
@@ -718,6 +814,23 @@ func c04Corpus() []c04Input {
 		ops = append(ops, unpersisted...)
 		ops = append(ops, B(9, 12, 4), W(13, 16, 5), S("ok"), c04Op{Kind: "restart"}, B(17, 20, 6), B(21, 22, 7), S("notinvoked"), B(23, 24, 8), W(1, 2, 9), S("ok"), c04Op{Kind: "reap"})
 		out = append(out, c04Input{Ops: ops})
+	}
+	// a LOAD applied while a snapshot is in flight (fsmSnapshot done, persist not yet): the close of the older full
+	// snapshot clears the FULL_NEEDED the load has set; then snapshot attempts that are skipped / blocked / fail, and
+	// the next snapshots; also an incremental snapshot in flight (its persist is refused), and writes in flight
+	Bg, P := c04Op{Kind: "begin"}, func(o string) c04Op { return c04Op{Kind: "persist", Out: o} }
+	L := func(v int) c04Op { return c04Op{Kind: "load", Data: all(v), Wal: v%2 == 1} }
+	for _, tail := range [][]c04Op{
+		{W(2, 3, 4), S("ok"), W(4, 5, 5), S("ok")},
+		{W(2, 3, 4), S("notinvoked"), W(4, 5, 5), S("ok"), W(6, 7, 6), S("ok")},
+		{B(2, 3, 4), W(4, 5, 5), S("ok"), W(6, 7, 6), S("ok")},
+		{W(2, 3, 4), S("failbefore"), W(4, 5, 5), S("ok")},
+	} {
+		first := append([]c04Op{W(1, vsKeys, 1), Bg, L(3), P("ok")}, tail...) // the first snapshot of a node is a full one
+		first = append(first, c04Op{Kind: "restart"}, c04Op{Kind: "reap"})
+		later := append([]c04Op{W(1, vsKeys, 1), S("ok"), L(2), W(1, 2, 9), Bg, W(3, 4, 8), L(3), W(5, 5, 7), P("notinvoked")}, tail...) // a later full one, not persisted
+		incr := append([]c04Op{W(1, vsKeys, 1), S("ok"), W(1, 2, 9), Bg, W(3, 4, 8), L(3), P("ok")}, tail...)                            // an incremental one: its persist is refused
+		out = append(out, c04Input{Ops: first}, c04Input{Ops: later}, c04Input{Ops: incr})
 	}
 	// snapshot attempts that fail (each refreshes the in-memory "database file modified" time) between a load
 	// and the next successful snapshot: only the durable FULL_NEEDED flag still says that a full one is due
